@@ -13,6 +13,7 @@ use crate::{
     access_control::PermissionsToken, certificate, private_key, security_error, SecurityError,
     SecurityResult,
   },
+  structure::guid::GuidPrefix,
   GUID,
 };
 use self::types::{DH_MODP_KAGREE_ALGO_NAME, ECDH_KAGREE_ALGO_NAME};
@@ -100,7 +101,7 @@ struct LocalParticipantInfo {
 // All things about remote participant that we're interested in
 struct RemoteParticipantInfo {
   //identity_token: IdentityToken,
-  //guid_prefix: GuidPrefix,
+  guid_prefix: GuidPrefix, // The GUID prefix that was given to validate_remote_identity
   identity_certificate_opt: Option<certificate::Certificate>, /* Not available at first.
                                                                * Obtained from handshake
                                                                * request/reply message */
@@ -278,5 +279,25 @@ impl AuthenticationBuiltin {
     ring::rand::generate::<[u8; 32]>(&self.secure_random_generator)
       .map(|random| random.expose())
       .map_err(|e| security_error(&format!("Failed to generate random bytes: {}", e)))
+  }
+}
+
+#[cfg(rustdds_verif)]
+impl AuthenticationBuiltin {
+  /// Verification hook: class of the handshake state kept for a remote identity handle
+  /// (0 PendingRequestSend, 1 PendingRequestMessage, 2 PendingReplyMessage,
+  /// 3 PendingFinalMessage, 4 CompletedWithFinalMessageSent, 5 CompletedWithFinalMessageReceived).
+  pub(crate) fn verif_handshake_state_class(&self, remote: IdentityHandle) -> Option<u8> {
+    self
+      .remote_participant_infos
+      .get(&remote)
+      .map(|info| match info.handshake.state {
+        BuiltinHandshakeState::PendingRequestSend => 0,
+        BuiltinHandshakeState::PendingRequestMessage => 1,
+        BuiltinHandshakeState::PendingReplyMessage { .. } => 2,
+        BuiltinHandshakeState::PendingFinalMessage { .. } => 3,
+        BuiltinHandshakeState::CompletedWithFinalMessageSent { .. } => 4,
+        BuiltinHandshakeState::CompletedWithFinalMessageReceived { .. } => 5,
+      })
   }
 }
